@@ -352,6 +352,13 @@ const EXTREMES: [i64; 10] = [
 
 const CHARS: [char; 4] = ['a', 'é', '€', '😀'];
 
+/// scalars whose UTF-8 encoding has a first / last possible lead or continuation byte
+/// (80, BF in every position; the ends of the 1-, 2-, 3- and 4-byte ranges)
+const BOUNDARY_CHARS: [char; 14] = [
+    '\u{7f}', '\u{80}', '\u{bf}', '\u{ff}', '\u{43f}', '\u{7ff}', '\u{800}', '\u{d7ff}', '\u{e000}', '\u{fffd}', '\u{ffff}', '\u{10000}',
+    '\u{3ffff}', '\u{10ffff}',
+];
+
 fn mixed_elem(k: usize) -> Json {
     match k % 6 {
         0 => json!(k as i64 * 10),
@@ -368,7 +375,7 @@ fn gen_seq(tape: &mut Tape, max: i64) -> Json {
     match tape.weighted(&[3, 2, 3]) {
         0 => Json::Array((0..n).map(|k| json!(k as i64 * 10)).collect()),
         1 => Json::Array((0..n).map(|k| mixed_elem(k + tape.below(6))).collect()),
-        _ => json!((0..n).map(|_| *tape.pick(&CHARS)).collect::<String>()),
+        _ => json!((0..n).map(|_| if tape.chance(1, 4) { *tape.pick(&BOUNDARY_CHARS) } else { *tape.pick(&CHARS) }).collect::<String>()),
     }
 }
 
@@ -396,6 +403,15 @@ fn sequences(max: usize) -> Vec<Json> {
     for n in 4..=max {
         strings.push((0..n).map(|k| CHARS[(k * 7 + n) % 4]).collect());
         strings.push((0..n).map(|k| CHARS[(k + 1) % 4]).collect());
+    }
+    // boundary scalars alone, next to ASCII and next to each other
+    for c in BOUNDARY_CHARS {
+        strings.push(c.to_string());
+        strings.push(format!("a{c}"));
+        strings.push(format!("{c}a"));
+        for d in BOUNDARY_CHARS {
+            strings.push(format!("{c}{d}"));
+        }
     }
     out.extend(strings.into_iter().map(|s| json!(s)));
     out
@@ -441,7 +457,7 @@ pub fn run(session: &Session) -> i32 {
         session.run_tapes(&C09, session.tier.of(40_000, 2_000_000), 40, 0);
     }
     session.finish(
-        "all arrays (distinct ints; mixed element types) of length 0..=max and all strings over {ASCII, 2-, 3-, 4-byte scalar} up to length 3 (+ samples up to max) x every index in [-n-3, n+3] plus 10 extreme i64 values x every (start, stop, step) with each bound absent or in [-n-2, n+2] or MIN/MAX (exhaustive), plus tape-generated longer sequences and random bounds; oracle = Python's slice.indices re-implemented on i128, `[]` for step 0, index ok iff -n <= i < n, std.len = number of scalars; folded route (literal text, incl. the static type of the slice admitting the value), partially constant routes (constant index / bounds on a run-time sequence; literal array with one run-time element) and run-time route (function value called through create_call with the sequence and bounds as arguments; the function is declared to return the same kind as its argument). Non-trivial = a slice with at least one bound, an index on/next to a boundary or extreme, or a multi-byte string; distinct by case.",
+        "all arrays (distinct ints; mixed element types) of length 0..=max and all strings over {ASCII, 2-, 3-, 4-byte scalar} up to length 3 (+ samples up to max) and all strings of length 1-2 over 14 scalars whose UTF-8 encoding has a boundary lead or continuation byte (80 / BF in each position, ends of the 1-4 byte ranges) x every index in [-n-3, n+3] plus 10 extreme i64 values x every (start, stop, step) with each bound absent or in [-n-2, n+2] or MIN/MAX (exhaustive), plus tape-generated longer sequences and random bounds; oracle = Python's slice.indices re-implemented on i128, `[]` for step 0, index ok iff -n <= i < n, std.len = number of scalars; folded route (literal text, incl. the static type of the slice admitting the value), partially constant routes (constant index / bounds on a run-time sequence; literal array with one run-time element) and run-time route (function value called through create_call with the sequence and bounds as arguments; the function is declared to return the same kind as its argument). Non-trivial = a slice with at least one bound, an index on/next to a boundary or extreme, or a multi-byte string; distinct by case.",
         true,
         &["exhaustive over the stated small scope only; longer sequences are sampled"],
     )
